@@ -15,6 +15,7 @@
 //! The consumer-side release is a bare pointer push - it can run under the
 //! mpmc consumer mutex, a measured lock-hold amplifier - while the node
 //! re-arm walk runs on the producer side in `acquire`.
+#![allow(unexpected_cfgs)] // `excsn_fibre_verif` gates the verification seam H4 below
 
 use crate::internal::cache_padded::CachePadded;
 
@@ -28,7 +29,12 @@ use crate::internal::sync::{fence, Arc, AtomicPtr, AtomicU32, Mutex, Ordering};
 /// convoy collapses at 128 (frequent consumer-side release under the consumer
 /// mutex); mpsc multi-producer degrades at 512 (larger hot working set).
 /// 256 is the point aimed at satisfying both.
+#[cfg(not(excsn_fibre_verif))]
 pub(crate) const SLAB_NODES: usize = 128;
+/// Verification seam H4: tiny slabs so that slab exhaustion, retirement and pool
+/// recycling are reached by short histories (correctness is size-agnostic).
+#[cfg(excsn_fibre_verif)]
+pub(crate) const SLAB_NODES: usize = 4;
 
 /// Retired slabs kept for reuse; beyond this the allocator gets them back, so
 /// a queue-depth burst doesn't pin its high-water memory forever.
